@@ -263,9 +263,13 @@ Definition flat_ok_b (T : optable) (g : graph) : bool :=
 Definition flat_marks_ok_b (g : graph) : bool :=
   forallb (fun n => match n_delay n with None => true | Some _ => false end) (g_nodes g).
 
+(* front-end fact: no edge joins two handoffs (build_dfir_code rejects adjacent handoffs) *)
+Definition flat_adj_ok_b (g : graph) : bool :=
+  forallb (fun e => negb (is_hoff g (e_src e) && is_hoff g (e_dst e))) (g_edges g).
+
 (* verdict code for the checks: 0 = the front-end guarantees hold and the model predicts the implementation's whole output *)
 Definition full_check (T : optable) (flat : graph) (impl : option graph) : N :=
-  if negb (flat_ok_b T flat && flat_marks_ok_b flat) then 1 else
+  if negb (flat_ok_b T flat && flat_marks_ok_b flat && flat_adj_ok_b flat) then 1 else
   match partition_model T flat, impl with
   | POk m, Some i => if part_agree_b flat m i then 0 else 1
   | POk _, None => 1
